@@ -139,11 +139,20 @@ class RenderNode(Node):
                 args["forloop"] = forloop
                 args[key] = None
 
-                with ctx.loop_iterations(len(val)):
+                with context.loop_iterations(len(val)):
                     for itm in forloop:
                         args[key] = itm
+                        # Each item gets a fresh context, so variables assigned and
+                        # counters created while rendering one item are not visible
+                        # when rendering the next.
+                        item_ctx = context.copy(
+                            namespace,
+                            disabled_tags=[TAG_INCLUDE],
+                            carry_loop_iterations=True,
+                            template=template,
+                        )
                         template.render_with_context(
-                            ctx, buffer, partial=True, block_scope=True
+                            item_ctx, buffer, partial=True, block_scope=True
                         )
             else:
                 # The bound variable is not array-like, shove it into the namespace
@@ -220,11 +229,20 @@ class RenderNode(Node):
                 args["forloop"] = forloop
                 args[key] = None
 
-                with ctx.loop_iterations(len(val)):
+                with context.loop_iterations(len(val)):
                     for itm in forloop:
                         args[key] = itm
+                        # Each item gets a fresh context, so variables assigned and
+                        # counters created while rendering one item are not visible
+                        # when rendering the next.
+                        item_ctx = context.copy(
+                            namespace,
+                            disabled_tags=[TAG_INCLUDE],
+                            carry_loop_iterations=True,
+                            template=template,
+                        )
                         await template.render_with_context_async(
-                            ctx, buffer, partial=True, block_scope=True
+                            item_ctx, buffer, partial=True, block_scope=True
                         )
             else:
                 # The bound variable is not array-like, shove it into the namespace
